@@ -12,6 +12,9 @@ for p in props:
         na.append({"property_id": pid, "reason": "check not built yet (work in progress; see DESIGN.md section 4 for the plan)"})
         continue
     mod = importlib.import_module(f"harness.props.{pid}")
+    if not getattr(mod, "READY", False):
+        na.append({"property_id": pid, "reason": "check under construction (harness exists, theorems not yet integrated); see DESIGN.md section 4"})
+        continue
     claim = getattr(mod, "CLAIM", {})
     checks.append({
         "property_id": pid,
